@@ -30,6 +30,11 @@ func c11Faults() []faultKind {
 		{name: "mod-negative-fraction-divisor", mk: func() Expr { return Bin("%", V("vnum"), un(N("0.25"))) }},
 		{name: "mod-numeric-string-fraction-divisor", mk: func() Expr { return Bin("%", N("9"), S("0.9")) }, selfCont: true},
 		{name: "mod-computed-fraction-divisor", mk: func() Expr { return Bin("%", N("10"), &Paren{X: Bin("/", N("1"), N("4"))}) }, selfCont: true},
+		// array literals as the leftmost token of the failing operation, with an even and an odd number of tokens inside (eighth round)
+		{name: "call-empty-array-literal", mk: func() Expr { return CallE(Arr(), N("1")) }, selfCont: true},
+		{name: "call-array-literal-of-four-tokens", mk: func() Expr { return CallE(Arr(un(N("1")), N("2")), N("0")) }, selfCont: true},
+		{name: "regex-match-against-empty-array-literal", mk: func() Expr { return Bin("~", S("s"), Arr()) }, selfCont: true},
+		{name: "regex-match-against-array-literal-of-four-tokens", mk: func() Expr { return Bin("!~", S("s"), Arr(un(N("1")), N("2"))) }, selfCont: true},
 		{name: "div0-compound", mk: func() Expr { return &Paren{X: &Assign{Op: "/=", L: V("vnum"), R: N("0")}} }},
 		{name: "div0-computed", mk: func() Expr { return Bin("/", V("vnum"), &Paren{X: Bin("-", V("vnum"), V("vnum"))}) }},
 		{name: "match-literal-against-container", selfCont: true, mk: func() Expr {
@@ -630,6 +635,9 @@ func c11Cases(tier string) int {
 }
 
 func c11Run(c *Case) {
+	if c.Idx == 0 {
+		round8Hand(c, "C11")
+	}
 	m := c11MatrixSize()
 	ns := 8000
 	if c.Tier == "thorough" {
@@ -655,7 +663,7 @@ func c11Run(c *Case) {
 func init() {
 	register(&Prop{
 		ID: "C11", Level: "fault_enumeration",
-		Rule:          "fault enumeration. (a) syntax splices: a generated valid host program (starting with BEGIN { print 'early' }) x 41 splice kinds (6 illegal bytes, unmatched ) ] }, lone quote, missing operands, return outside a function, break/continue outside a loop, assignment to a literal / arithmetic result / array literal / negated name / call result / increment / match expression, ++ and -- on literals / arithmetic / calls / other increments, for-in without `in` or with $ as its variable, unterminated string / regex) inserted at a random token boundary or statement position: outcome must be `syntax` with empty stdout. (b) runtime faults: 46 fault kinds x 38 syntactic positions (every operand slot, prefix operand, callee, call/method argument, array element, object value, index, member base, if/while condition, for initialiser/condition/post, for-in iterable, match subject/body expression/body block, print/printf argument, nested blocks) x 3 contexts (BEGIN; pattern rule on the 2nd of 3 elements; function called from END), plus rule pattern, return value, BEGINFILE, ENDFILE and -r selector placements (the selector alone, after output printed by the same selector, and as second selector after the first was processed); 13 selectors that do not parse x 3 programs x 3 inputs (one of them empty) x 3 selector lists: a syntax error without any output; 18 late faults (a printf / arithmetic / index / regex / method site that worked on earlier data and fails on later data, output computed by hand); each planted statement is surrounded by print 'pre' / print 'post'; stdout prefix and `runtime` outcome vs the reference model. Sampled: the same faults planted at random positions of structured programs. Every cell is non-trivial; distinct by (fault, position, context) or program text. 16 further splices of non-assignable targets (assignment to a negated name / a call result / a postfix expression, ++ and -- of literals and parenthesised sums, for-in without in, for ($ in ...)); root selectors that do not parse, alone and after valid ones, with and without input: a syntax error before anything runs. 5 runtime fault kinds storing to members named like methods on arrays / strings / numbers.",
+		Rule:          "fault enumeration. (a) syntax splices: a generated valid host program (starting with BEGIN { print 'early' }) x 41 splice kinds (6 illegal bytes, unmatched ) ] }, lone quote, missing operands, return outside a function, break/continue outside a loop, assignment to a literal / arithmetic result / array literal / negated name / call result / increment / match expression, ++ and -- on literals / arithmetic / calls / other increments, for-in without `in` or with $ as its variable, unterminated string / regex) inserted at a random token boundary or statement position: outcome must be `syntax` with empty stdout. (b) runtime faults: 50 fault kinds x 38 syntactic positions (every operand slot, prefix operand, callee, call/method argument, array element, object value, index, member base, if/while condition, for initialiser/condition/post, for-in iterable, match subject/body expression/body block, print/printf argument, nested blocks) x 3 contexts (BEGIN; pattern rule on the 2nd of 3 elements; function called from END), plus rule pattern, return value, BEGINFILE, ENDFILE and -r selector placements (the selector alone, after output printed by the same selector, and as second selector after the first was processed); 13 selectors that do not parse x 3 programs x 3 inputs (one of them empty) x 3 selector lists: a syntax error without any output; 18 late faults (a printf / arithmetic / index / regex / method site that worked on earlier data and fails on later data, output computed by hand); each planted statement is surrounded by print 'pre' / print 'post'; stdout prefix and `runtime` outcome vs the reference model. Sampled: the same faults planted at random positions of structured programs. Every cell is non-trivial; distinct by (fault, position, context) or program text. 16 further splices of non-assignable targets (assignment to a negated name / a call result / a postfix expression, ++ and -- of literals and parenthesised sums, for-in without in, for ($ in ...)); root selectors that do not parse, alone and after valid ones, with and without input: a syntax error before anything runs. 5 runtime fault kinds storing to members named like methods on arrays / strings / numbers.",
 		NumCases:      c11Cases,
 		Run:           c11Run,
 		MinConclusive: func(tier string) int { return 8000 },
